@@ -414,10 +414,11 @@ pub(crate) fn parse_unknown_ifdata(
                     items.push(item);
                 } else {
                     // try again, looks like the number is a float instead
+                    // the type is not known, so the number is kept with full precision in order to write it back unchanged
                     parser.undo_get_token();
-                    let floatnum = parser.get_float(context)?; // if this also returns an error, it is neither int nor float, which is a genuine parse error
+                    let floatnum = parser.get_double(context)?; // if this also returns an error, it is neither int nor float, which is a genuine parse error
                     let line_offset = parser.get_line_offset();
-                    items.push(GenericIfData::Float(line_offset, floatnum));
+                    items.push(GenericIfData::Double(line_offset, floatnum));
                 }
             }
             A2lTokenType::Begin => {
